@@ -55,7 +55,7 @@ class Check(CheckBase):
                 'force': ['shared', 'clone', 'independent', 'shared-of-prev'][i % 4],
             })
         # the same relationships through the program entry point (python -m replicat in child processes)
-        for i in range(4 if quick else 60):
+        for i in range(8 if quick else 240):
             cases.insert(i, {'kind': 'cli', 'seed': random.Random(f'C06/{self.seed}/cli/{i}').randrange(1 << 30), 'timeout': 900})
         return cases
 
